@@ -97,6 +97,24 @@ def run_history(spec, ops, label_extra=()):
         trace.append((kind, val))
         ctxt = f"cube(nints={nints},nbands={nbands},nbins={nbins},fch1={spec['fch1']},foff={spec['foff']},nchans={spec['nchans']},p0={p0!r},dm0={dm0!r}) history={trace}"
         before = cube.data.copy()
+        if k % 3 == 1 and "centre" in label_extra:
+            # a centred copy of the cube is taken and re-tuned back to the folding values: that is another cube, and
+            # nothing done to it may show in this one
+            other = None
+            try:
+                other = cube.centre()
+            except ValueError:
+                pass  # centring needs more phase bins than its widest template: a refusal, not this property's business
+            except Exception as exc:  # noqa: BLE001
+                raise Violation(f"centre:raised:{type(exc).__name__}", f"{ctxt}: {exc!r}") from exc
+            if other is not None:
+                try:
+                    other.update_dm(dm0)
+                    other.update_period(p0)
+                except Exception as exc:  # noqa: BLE001
+                    raise Violation(f"centre:update:raised:{type(exc).__name__}", f"{ctxt}: {exc!r}") from exc
+            if other is not None and not np.array_equal(cube.data, before, equal_nan=True):
+                raise Violation("retune:changed-by-another-cube", f"{ctxt}: re-tuning a centred copy changed this cube")
         try:
             if kind == "dm":
                 cube.update_dm(val)
@@ -258,7 +276,7 @@ def check_random(case, ctx):
             ops.append(("dm", 0 if v < 0 else 0.0))  # exactly zero, as a Python int or float
         else:
             ops.append(("p", spec["p0"]))
-    return run_history(spec, ops, ("random",))
+    return run_history(spec, ops, ("random", "centre") if case["spec"]["seed"] % 3 == 0 else ("random",))
 
 
 def subchecks(tier):
